@@ -11,6 +11,7 @@ TRUSTED_BASE = [
     "pvc (the home-made VC generator in /verif/pvc: AST front end, symbolic evaluator, contract harness)",
     "z3 5.1.0 (python API) and cvc5 1.0.3 (CLI) as decision procedures",
     "the numpy/scipy/pandas model in pvc/npmodel.py (assumption A4), exercised against the installed libraries by replay/validate_model.py",
+    "Lean 4.33 kernel + Mathlib for the spec-level lemmas of lean/Lemmas.lean (units named lean_lemmas)",
     "CPython/numba implement the semantics of the Python subset A6 that the evaluator encodes (A5)",
 ]
 
